@@ -35,11 +35,11 @@ CLAIMED = {
     'C07': dict(assumptions=[GAP]),
     'C08': dict(assumptions=[GAP, 'order-independence of the structural states is covered as: par sizes and fold lore are functions of the NEW trace positions only (ParFSM / FoldFSM / builders), and the position maps link each merged stream value to the state consumed from that very trace; par/fold re-positioning over whole traces is not covered']),
     'C09': dict(assumptions=[GAP, 'whole-trace multiset preservation over par/fold repositioning is not covered; the Left-end restore of a par is deliberately unconstrained (F10)']),
-    'C10': dict(assumptions=[GAP, 'that the result trace only grows between FSM calls (ghost n0 <= n1 <= n2, monotone positions) is assumed; the fold call order is no longer assumed (F13 repaired: out-of-order calls are errors)']),
+    'C10': dict(assumptions=[GAP, 'the scope functions of the two stream tables (unit stream_scopes: Streams / StreamMaps::{meet_scope_start, meet_scope_end, compactify}, StreamMap::compactify, find_closest): start keeps every bound descriptor, end hands exactly the popped stream with all its appends to Stream::compactify, compactify Ok => every stream of every descriptor of every name was handed to it once; Stream::compactify is a logging stub there (its effect on generation numbers is proved in unit streams; the two Stream shims are not linked mechanically); trusted: an opaque HashMap<String, Vec<D>> shim (entry / remove / get_mut / iter_mut = every key once, unspecified order), 9 local rewrites; not covered: compactify_streams in the farewell step (external_body in unit runner), get / get_mut, find_closest_mut', 'that the result trace only grows between FSM calls (ghost n0 <= n1 <= n2, monotone positions) is assumed; the fold call order is no longer assumed (F13 repaired: out-of-order calls are errors)']),
     'C11': dict(assumptions=[GAP, 'thin: canon join laws only; nothing history-level']),
     'C12': dict(assumptions=[GAP, 'recursive streams and the call sites of add_value are not covered',
                              'iterator-based code (slice_iter, iter, retain, update_generations) is outside Verus: its assumed specs are tied to the real code only by the bounded native job C12.compactify on the real Stream + TraceHandler (a regression of F14b in slice_iter is caught there, not by Verus)']),
-    'C13': dict(assumptions=[GAP, 'every caller of Stream::add_value (unit appends) and the fold/next executors with RecursiveStreamCursor (unit fold_exec, lemma cursor_visits_each_value_once) are under contract; the fold body is an opaque child that may append to the open generation only',
+    'C13': dict(assumptions=[GAP, 'no stream is lost by the scope functions (unit stream_scopes, see C10); the precondition of meet_scope_end (its two unwraps) rests on control_exec\'s `depth > 0` plus the invariant depth <= number of bound descriptors: lemma scope_len_steps gives its steps, the induction over a run is on paper', 'every caller of Stream::add_value (unit appends) and the fold/next executors with RecursiveStreamCursor (unit fold_exec, lemma cursor_visits_each_value_once) are under contract; the fold body is an opaque child that may append to the open generation only',
                              'ValuesMatrix::slice_iter (iterator chain) is a stub with the spec non_empty(view.skip(cursor)); the bounded native jobs C12.compactify / C13.cursor tie it to the real code']),
     'C14': dict(assumptions=[GAP, 'Ed25519, borsh and CidInfo::verify internals are trusted; the attack catalogue over histories is not covered']),
     'C15': dict(assumptions=[GAP, 'to_count_map (HashMap entry API) is outside Verus: assumed to return the multiset of its argument, checked by the bounded native job C15.merge, which also covers DataVerifier::merge (swap logic, Entry API) that Verus cannot take']),
